@@ -295,6 +295,52 @@ def leadsheet_append_order(ctx, ci):
          'with different lengths' % ', then '.join(recv), construct='LeadSheet.append: melody first', definite=True)
 
 
+def paired_on_every_exit(ctx, m, name, rule, mode='length'):
+  """Location-independent must-pass-through over the normal exits of LeadSheet.<name>.
+  mode 'length' (C17: append, set_length, increase_resolution change the length): an exit reached with one sequence edited
+  and the other not leaves melody and chords with different lengths - located, whatever the guard.  An exit with neither
+  edited is a no-op and keeps them in step.
+  mode 'transpose' (C10): an exit that skips a delegate is judged by a scenario: if its guard is definitely taken for an
+  amount for which the skipped operation changes the sequence (a whole octave still moves every melody pitch), the deviation
+  is located; otherwise the verdict is "cannot classify"."""
+  from sa import scenario
+  miss = {}
+  for recv, what in (('self._melody', 'melody'), ('self._chords', 'chords')):
+    target = '%s.%s' % (recv, name)
+    miss[what] = U.exits_missing_call(m.node, lambda c, target=target: norm_text(c.func) == target)
+  for what, other in (('melody', 'chords'), ('chords', 'melody')):
+    target = 'self._%s.%s' % (what, name)
+    cons = 'LeadSheet.%s: %s on every exit' % (name, target)
+    if not miss[what]:
+      ctx.ob(rule, m, m.node, True, 'every normal exit of LeadSheet.%s has passed %s' % (name, target), construct=cons)
+      continue
+    for ex in miss[what]:
+      line = getattr(ex, 'lineno', 0) if isinstance(ex, ast.stmt) and not isinstance(ex, ast.FunctionDef) else getattr(m.node, 'end_lineno', 0)
+      node = ex if isinstance(ex, ast.stmt) and not isinstance(ex, ast.FunctionDef) else m.node
+      if mode == 'length':
+        lone = not any(ex is x for x in miss[other])
+        if lone:
+          ctx.ob(rule, m, node, False, 'LeadSheet.%s can end (line %d) after self._%s.%s has run but without %s: the two sequences then differ in length, and every later '
+                 'pairwise access is misaligned or raises' % (name, line, other, name, target), construct=cons, definite=True)
+        else:
+          ctx.ob(rule, m, node, True, 'the exit at line %d edits neither sequence' % line, construct=cons + ' (exit at line %d edits neither)' % line)
+        continue
+      verdict, why = None, 'cannot classify: LeadSheet.%s can return (line %d) without calling %s; whether the %s needs no edit there is not known' % (name, line, target, what)
+      if isinstance(ex, ast.Return) and len(m.params()) > 1:
+        amount = m.params()[1]
+        conds = [(U.expand_locals(m.node, t, at=ex), p) for t, p in U.path_conditions(m.node, ex)]
+        for val in (12, -12, 24, 1):
+          if conds and scenario.tv_all(conds, {amount: nf.rat(E(repr(val)))}) is True and (what == 'melody' or val % 12):
+            verdict = val
+            break
+        if verdict is not None:
+          why = ('LeadSheet.transpose returns at line %d without calling %s when %s == %d (its guard %s is taken): %s, so the lead sheet is no longer transposed as a whole') % (
+              line, target, amount, verdict, ' and '.join(('' if p else 'not ') + norm_text(t) for t, p in conds),
+              'Melody.transpose moves every pitch by the amount and folds it into [min_note, max_note) whatever the amount is' if what == 'melody'
+              else 'the chords are transposed by the amount modulo 12, which is not zero here')
+      ctx.ob(rule, m, node, False, why, construct=cons, definite=verdict is not None, unknown=None if verdict is not None else why)
+
+
 def leadsheet(ctx):
   ci = ctx.cls('lead_sheets_lib:LeadSheet')
   leadsheet_append_order(ctx, ci)
@@ -317,6 +363,8 @@ def leadsheet(ctx):
     elif not ok:
       why = 'LeadSheet.%s does not apply the operation to both the melody and the chords (melody calls: %d, chord calls: %d): they fall out of step' % (name, len(mel), len(chd))
     ctx.ob('PAIRED/lead-sheet', m, m.node, ok, why, construct='LeadSheet.%s delegates to both sequences' % name)
+    if name != 'transpose':
+      paired_on_every_exit(ctx, m, name, 'PAIRED/every-exit')
   sl = ci.methods.get('set_length')
   params = sl.params()
   used = all(any(isinstance(n, ast.Name) and n.id == p for n in ast.walk(sl.node) if isinstance(n, ast.Name) and isinstance(n.ctx, ast.Load)) for p in params[1:])
